@@ -163,7 +163,7 @@ func runC08(args []string) {
 	amgr.FastScrypt()
 	if !ev.IsWorker() {
 		cov := run.RunSharded(16, append([]string{"c08"}, args...))
-		cov["rule"] = "every operation sequence up to the depth where every mutating operation is tried committed and rolled-back-after-success; at the commit boundary after the last operation the observation vector (issued addresses + metadata, indices, names, properties, used flags, sync state) of the live manager is compared with a manager freshly opened on a copy of the database; before a committed issuing call a restarted copy is asked what it would issue (Q2); non-trivial = sequences containing a rolled-back operation followed by a committed one"
+		cov["rule"] = "every operation sequence up to the depth where every mutating operation is tried committed and rolled-back-after-success; at the commit boundary after the last operation the observation vector (issued addresses + metadata, indices, names, properties, used flags, sync state) of the live manager is compared with a manager freshly opened on a copy of the database; before a committed issuing call a restarted copy is asked what it would issue (Q2); non-trivial = sequences containing a rolled-back operation followed by a committed one. Wallet-level part: every sequence up to depth 3 over {NewAddress, NewChangeAddress, CreateSimpleTx dry run / real, ImportAccountDryRun ok / failing mid-transaction, ImportAccount of two keys, NewAddress on the imported account} on the real wallet with the same two oracles"
 		if _, ok := cov["samples"]; !ok {
 			cov["samples"] = []string{"(none)"}
 		}
@@ -240,18 +240,27 @@ func runC08(args []string) {
 		}
 		mu.Unlock()
 	}, run.Expired)
+	// wallet-level part: dry-run transaction creation and dry-run account import
+	wdepth := 3
+	wex, wev, wnt, wobs, wcomplete := c08Wallet(run, wdepth, func(sig, msg string, seq []c08wOp) {
+		run.Violation(sig, msg, map[string]interface{}{"kind": "c08-wallet", "sequence": seq})
+	})
+	for o := range wobs {
+		obsSet[o] = true
+	}
 	var obsList []string
 	for o := range obsSet {
 		obsList = append(obsList, o)
 	}
 	run.Finish(ev.Coverage{
 		"states@set":                    obsList,
-		"transitions":                   execs,
-		"traces_validated_against_impl": execs,
-		"evaluations":                   evals,
-		"distinct_nontrivial":           nontrivial,
-		"executions":                    done,
-		"exhaustive":                    complete,
+		"transitions":                   execs + wex,
+		"traces_validated_against_impl": execs + wex,
+		"evaluations":                   evals + wev,
+		"distinct_nontrivial":           nontrivial + wnt,
+		"executions":                    done + wex,
+		"wallet_level_executions":       wex,
+		"exhaustive":                    complete && wcomplete,
 		"samples":                       samples,
 		"q3_divergences_on_never_issued_addresses": q3,
 	})
